@@ -107,6 +107,7 @@ func Serve(sockpath, dbpath string, opts ServeOpts) int {
 				close(listenErrCh)
 				return
 			}
+			verifAccepted(conn)
 			connCh <- conn
 		}
 	}()
